@@ -15,6 +15,16 @@ let () =
   try while true do
     let line = input_line stdin in
     match String.split_on_char ' ' (String.trim line) |> List.filter (fun s -> s <> "") with
+    | id :: "pseudo" :: pm :: qs ->
+        (* <id> pseudo <u:g,u:g,...|-> <u:cmapgid> ... : the initial glyph / support of each queried character *)
+        let ents = if pm = "-" then [] else List.map (fun e -> match String.split_on_char ':' e with
+                     | [u; g] -> (n_of_int (int_of_string ("0x" ^ u)), n_of_int (int_of_string g)) | _ -> (N0, N0)) (String.split_on_char ',' pm) in
+        let buf = Buffer.create 256 in
+        List.iter (fun q -> match String.split_on_char ':' q with
+          | [u; g] -> let u' = n_of_int (int_of_string ("0x" ^ u)) and g' = n_of_int (int_of_string g) in
+                      Buffer.add_string buf (Printf.sprintf " %s:%d:%d" u (int_of_n (initial_glyph g' ents u')) (if char_supported g' ents u' then 1 else 0))
+          | _ -> Buffer.add_string buf " ?") qs;
+        Printf.printf "%s PS%s\n" id (Buffer.contents buf)
     | id :: "tbl" :: h :: cps ->
         let t = (match cmap_view (mem_of_hex h) with Some v -> v | None -> mem_of_hex "-") in
         let cps = List.map (fun s -> n_of_int (int_of_string ("0x" ^ s))) cps in
